@@ -279,6 +279,83 @@ def fam_error_format():
                   bounds=dict(requests=len(reqs), minor='symbolic 0..39'))
 
 
+# ---- version bands: a document valid for a band, symbolic minor in the band
+
+def fam_version_bands():
+    A_LIST = [{'resource_provider': {'uuid': U(1)}, 'resources': {'VCPU': 1}}]
+    A_DICT = {U(1): {'resources': {'VCPU': 1}}}
+    bands = [
+        # (lo, hi, method, url, body, expected success status)
+        (0, 7, 'PUT', '/allocations/' + CONS(5), {'allocations': A_LIST}, 204),
+        (8, 11, 'PUT', '/allocations/' + CONS(5),
+         {'allocations': A_LIST, 'project_id': 'p', 'user_id': 'u'}, 204),
+        (12, 27, 'PUT', '/allocations/' + CONS(5),
+         {'allocations': A_DICT, 'project_id': 'p', 'user_id': 'u'}, 204),
+        (28, 37, 'PUT', '/allocations/' + CONS(5),
+         {'allocations': A_DICT, 'project_id': 'p', 'user_id': 'u',
+          'consumer_generation': None}, 204),
+        (38, 39, 'PUT', '/allocations/' + CONS(5),
+         {'allocations': A_DICT, 'project_id': 'p', 'user_id': 'u',
+          'consumer_generation': None, 'consumer_type': 'INSTANCE'}, 204),
+        (13, 27, 'POST', '/allocations', {CONS(5): {
+            'allocations': A_DICT, 'project_id': 'p', 'user_id': 'u'}}, 204),
+        (28, 37, 'POST', '/allocations', {CONS(5): {
+            'allocations': A_DICT, 'project_id': 'p', 'user_id': 'u',
+            'consumer_generation': None}}, 204),
+        (38, 39, 'POST', '/allocations', {CONS(5): {
+            'allocations': A_DICT, 'project_id': 'p', 'user_id': 'u',
+            'consumer_generation': None, 'consumer_type': 'INSTANCE'}}, 204),
+        (30, 37, 'POST', '/reshaper', {'inventories': {U(1): {
+            'resource_provider_generation': 0,
+            'inventories': {'VCPU': {'total': 8}}}}, 'allocations': {}}, 204),
+        (1, 18, 'PUT', '/resource_providers/%s/aggregates' % U(1),
+         [AGG(1)], 200),
+        (19, 39, 'PUT', '/resource_providers/%s/aggregates' % U(1),
+         {'resource_provider_generation': 0, 'aggregates': [AGG(1)]}, 200),
+        (0, 19, 'POST', '/resource_providers', {'name': 'n', 'uuid': U(9)},
+         201),
+        (20, 39, 'POST', '/resource_providers', {'name': 'n', 'uuid': U(9)},
+         200),
+        (14, 39, 'POST', '/resource_providers',
+         {'name': 'n', 'uuid': U(9), 'parent_provider_uuid': U(1)}, None),
+        (0, 39, 'PUT', '/resource_providers/%s/inventories' % U(1),
+         {'resource_provider_generation': 0,
+          'inventories': {'VCPU': {'total': 8}}}, 200),
+        (6, 39, 'PUT', '/resource_providers/%s/traits' % U(1),
+         {'resource_provider_generation': 0, 'traits': []}, 200),
+        (2, 6, 'PUT', '/resource_classes/CUSTOM_OLD', {'name': 'CUSTOM_NEW'},
+         200),
+        (7, 39, 'PUT', '/resource_classes/CUSTOM_NEW', None, 201),
+    ]
+
+    def path(ctx):
+        app.setup()
+        lo, hi, method, url, body, want = bands[symex.choose(len(bands))]
+        minor = app.sym_minor(ctx, lo, hi)
+        with World(ctx) as w:
+            w.rc('VCPU')
+            w.rc('CUSTOM_OLD', 10000)
+            w.project('p')
+            w.user('u')
+            w.consumer_type('INSTANCE')
+            w.provider(1, generation=0)
+            w.inventory(1, 'VCPU', present=True, total=8, reserved=0,
+                        min_unit=1, max_unit=8, step_size=1,
+                        allocation_ratio=1.0)
+            r = app.call(method, url, copy.deepcopy(body), version='sym',
+                         roles='admin,service')
+            what = '%s %s valid for 1.%d-1.%d' % (method, url.split('/')[1],
+                                                  lo, hi)
+            well_formed(ctx, r, what)
+            if r.status >= 400 or (want is not None and r.status != want):
+                runner.violation(ctx, 'valid-request-accepted',
+                                 '%s answered %d' % (what, r.status),
+                                 sig=what)
+            return finish(ctx, str(r.status))
+    return Family('version-bands', path, bounds=dict(
+        documents=len(bands), minor='symbolic inside each band'))
+
+
 # ---- numeric query values and exotic topologies ------------------------------
 
 def fam_query_numbers():
@@ -446,7 +523,7 @@ def families(tier):
         shapes = [s for s in shapes if s.name in keep]
     fams = [fam_numbers(s) for s in shapes]
     fams += [fam_special_floats(), fam_mutations(), fam_error_format(),
-             fam_query_numbers(), fam_query_strings()]
+             fam_query_numbers(), fam_query_strings(), fam_version_bands()]
     if os.environ.get('VERIF_NO_CROSSHAIR') != '1':
         fams.append(fam_crosshair(8 if tier == 'quick' else 60))
     return fams
